@@ -29,6 +29,8 @@ from vf import rt
 L = rt.envint("VF_L", 3)
 FIXCMD = [int(c) for c in rt.envstr("VF_FIXCMD", "")]
 INNER = rt.envint("VF_INNER", 0)
+ARGLO = rt.envint("VF_ARGLO", 0)      # split: range of the argument of command #1
+ARGHI = rt.envint("VF_ARGHI", 6)
 END = 5
 TIMES = [1, 2, 2, 4]
 PRIOS = [1, 1, 2, 1]        # indices into simmodel.PRIOS = [1, 5, 10] -> 5,5,10,5
@@ -302,6 +304,7 @@ def h_cmds(cmds: List[int], args: List[int], warm: int, icmd: int, iarg: int) ->
     pre: all(0 <= a <= 6 for a in args)
     pre: all(cmds[i] == FIXCMD[i] for i in range(len(FIXCMD)))
     pre: all(cmds[i] in (4, 5) or args[i] == 0 for i in range(L))
+    pre: L < 2 or cmds[1] not in (4, 5) or ARGLO <= args[1] <= ARGHI
     pre: 0 <= warm <= 5
     pre: 0 <= icmd <= 6 and 0 <= iarg <= 6
     pre: INNER == 1 or (icmd == 0 and iarg == 0)
